@@ -912,4 +912,133 @@ theorem getSel_ext_length {l : List Item} {a b c : Option Int} {asc : List Nat} 
   simp only [getSel]
   cases rev <;> simp [keepIdxs_length l asc hn hb]
 
+/-! ## the hand-written operations are the interpretation of the regenerated programs (tie T, `T14p`) -/
+section Programs
+open HdVerif.SRSeqIR
+set_option linter.unusedSimpArgs false
+
+theorem checkAll_single (f : Item → Except ErrKind Unit) (x : Item) : checkAll f [x] = f x := by
+  simp only [checkAll]
+  cases f x with
+  | ok u => cases u; rfl
+  | error e => rfl
+
+theorem append_is_program (s : Seq) (x : Item) : append s x = runAppend [x] s := by
+  unfold append runAppend runWith
+  simp only [Gen.csProg_append, execProg, execStmt, checkFn, checkAll_single]
+  cases appendCheck s x with
+  | error e => rfl
+  | ok u => simp [lutAddAll]
+
+theorem extend_eachCall (s : Seq) (xs : List Item) : extend s xs = eachCall runAppend xs s := by
+  induction xs generalizing s with
+  | nil => rfl
+  | cons x xs ih =>
+    simp only [extend, eachCall, ← append_is_program]
+    cases h : append s x with
+    | mk s' e =>
+      cases e with
+      | some e => rfl
+      | none => exact ih s'
+
+theorem extend_is_program (s : Seq) (xs : List Item) : extend s xs = runExtend xs s := by
+  unfold runExtend runWith
+  simp only [Gen.csProg_extend, execProg, execStmt, call1, ← extend_eachCall]
+  cases extend s xs with
+  | mk s' e => cases e <;> rfl
+
+theorem iadd_is_program (s : Seq) (xs : List Item) : step s (.iadd xs) = runIadd xs s := by
+  unfold runIadd runWith
+  simp only [step, Gen.csProg_iadd, execProg, execStmt, call2, ← extend_is_program]
+  cases extend s xs with
+  | mk s' e => cases e <;> rfl
+
+theorem insert_is_program (s : Seq) (pos : Int) (x : Item) : SRContentSeq.insert s pos x = runInsert pos [x] s := by
+  unfold SRContentSeq.insert runInsert runWith
+  simp only [Gen.csProg_insert, execProg, execStmt, checkFn, checkAll_single]
+  cases insertCheck s x with
+  | error e => rfl
+  | ok u => simp [lutAddAll]
+
+theorem setItem_is_program (s : Seq) (i : Int) (x : Item) : setItem s i x = runSetitem (.int i) [x] s := by
+  unfold setItem runSetitem runWith commitReplace
+  simp only [Gen.csProg_setitem, execProg, execStmt, checkFn, checkAll_single, resolveIdx]
+  cases hc : setitemCheck s x with
+  | error e => rfl
+  | ok u =>
+    cases hk : normIdx s.items.length i with
+    | error e => simp only [hk]
+    | ok k =>
+      simp only [hk, getR, setR]
+      cases hl : lutRemoveAll s.lut (List.take 1 (List.drop k s.items)) with
+      | mk l e => cases e <;> simp only [hl]
+
+theorem setSlice_is_program (s : Seq) (a b c : Option Int) (xs : List Item) :
+    setSlice s a b c xs = runSetitem (.slice a b c) xs s := by
+  unfold setSlice runSetitem runWith commitReplace
+  simp only [Gen.csProg_setitem, execProg, execStmt, checkFn, resolveIdx]
+  cases hc : checkAll (setitemCheck s) xs with
+  | error e => rfl
+  | ok u =>
+    cases hk : resolveSlice s.items.length a b c with
+    | error e => simp only [hk]
+    | ok sel =>
+      simp only [hk, getR, setR]
+      cases hs : setSel s.items xs sel with
+      | error e => simp only [hs]
+      | ok l =>
+        simp only [hs]
+        cases hl : lutRemoveAll s.lut (getSel s.items sel) with
+        | mk l e => cases e <;> simp only [hl]
+
+theorem delItem_is_program (s : Seq) (i : Int) : delItem s i = runDelitem (.int i) s := by
+  unfold delItem runDelitem runWith commitDelete
+  simp only [Gen.csProg_delitem, execProg, execStmt, resolveIdx]
+  cases hk : normIdx s.items.length i with
+  | error e => simp only [hk]
+  | ok k =>
+    simp only [hk, getR, delR]
+    cases hl : lutRemoveAll s.lut (List.take 1 (List.drop k s.items)) with
+    | mk l e => cases e <;> simp only [hl, hk]
+
+theorem delSlice_is_program (s : Seq) (a b c : Option Int) : delSlice s a b c = runDelitem (.slice a b c) s := by
+  unfold delSlice runDelitem runWith commitDelete
+  simp only [Gen.csProg_delitem, execProg, execStmt, resolveIdx]
+  cases hk : resolveSlice s.items.length a b c with
+  | error e => simp only [hk]
+  | ok sel =>
+    simp only [hk, getR, delR]
+    cases hl : lutRemoveAll s.lut (getSel s.items sel) with
+    | mk l e => cases e <;> simp only [hl, hk]
+
+theorem construct_is_program (items : List Item) (r sr : Bool) : construct items r sr = runInit items r sr := by
+  unfold construct runInit
+  simp only [Gen.csProg_init, execProg, execStmt, checkFn]
+  cases Gen.csCtorFlags r sr with
+  | error e => rfl
+  | ok b =>
+    simp only
+    cases checkAll (ctorCheck r sr) items with
+    | error e => rfl
+    | ok u => rfl
+
+theorem find_is_program (s : Seq) (n : Nat) : find s n = execCollect Gen.csProg_find s n := by
+  unfold find collect execCollect
+  simp only [Gen.csProg_find, flagOf]
+
+theorem getNodes_is_program (s : Seq) : getNodes s = execCollect Gen.csProg_get_nodes s 0 := by
+  unfold getNodes collect execCollect
+  simp only [Gen.csProg_get_nodes, flagOf]
+
+theorem index_is_program (s : Seq) (x : Item) : index s x = execIndex Gen.csProg_index s x := by
+  unfold index execIndex
+  simp only [Gen.csProg_index, Bool.not_true, Bool.false_eq_true, ↓reduceIte, Bool.true_and]
+  by_cases h : x ∈ s.lut x.name
+  · simp [h]
+  · simp [h]
+
+theorem contains_is_program : Gen.csContainsViaIndex = true := by decide
+
+end Programs
+
 end HdVerif.SRContentSeqLemmas
